@@ -197,6 +197,8 @@ pub struct Piped {
 
 #[derive(Default)]
 pub struct Log {
+    /// when set, the recording pipe's flush future stays pending (a throttled disk tier)
+    pub pending_flush: std::sync::atomic::AtomicBool,
     pub leaves: Mutex<Vec<Leave>>,
     pub pipes: Mutex<Vec<Piped>>,
     /// cache handle for re-entrant lookups from the listener (taken out at the end to break the cycle)
@@ -249,7 +251,11 @@ impl Pipe for RecPipe {
         for piece in pieces {
             g.push(Piped { key: *piece.key(), id: piece.value().id, via_flush: true });
         }
-        Box::pin(async {})
+        if self.0.pending_flush.load(std::sync::atomic::Ordering::Relaxed) {
+            Box::pin(std::future::pending())
+        } else {
+            Box::pin(async {})
+        }
     }
 }
 
@@ -284,6 +290,8 @@ pub enum Op {
     Resize { cap: usize },
     EvictAll,
     Flush,
+    /// `flush()` against a disk tier that does not complete: the future is polled once and dropped
+    FlushCancelled,
 }
 
 #[derive(Clone, Debug, Serialize, Deserialize, PartialEq, Eq)]
@@ -506,6 +514,15 @@ impl MemHarness {
                 block_on_ready(fut);
                 out.push(self.observe(Step::Flush));
             }
+            Op::FlushCancelled => {
+                self.log.pending_flush.store(true, std::sync::atomic::Ordering::Relaxed);
+                {
+                    let fut = self.cache().flush();
+                    poll_once_and_drop(fut);
+                }
+                self.log.pending_flush.store(false, std::sync::atomic::Ordering::Relaxed);
+                out.push(self.observe(Step::Flush));
+            }
         }
     }
 
@@ -536,6 +553,20 @@ pub fn block_on_ready<F: Future>(fut: F) -> F::Output {
         std::thread::yield_now();
     }
     panic!("future did not complete without a runtime");
+}
+
+/// Poll a future exactly once and drop it (cancellation at its first suspension point).
+pub fn poll_once_and_drop<F: Future>(fut: F) {
+    use std::task::{Context, RawWaker, RawWakerVTable, Waker};
+    fn noop(_: *const ()) {}
+    fn clone(_: *const ()) -> RawWaker {
+        RawWaker::new(std::ptr::null(), &VT)
+    }
+    static VT: RawWakerVTable = RawWakerVTable::new(clone, noop, noop, noop);
+    let waker = unsafe { Waker::from_raw(RawWaker::new(std::ptr::null(), &VT)) };
+    let mut cx = Context::from_waker(&waker);
+    let mut fut = std::pin::pin!(fut);
+    let _ = fut.as_mut().poll(&mut cx);
 }
 
 /// Measure the capacity of every shard of a fresh cache with the given configuration, using only
@@ -636,7 +667,7 @@ impl OpMix {
             96..=97 => Op::EvictAll,
             _ => {
                 if self.allow_flush {
-                    Op::Flush
+                    if rng.chance(1, 3) { Op::FlushCancelled } else { Op::Flush }
                 } else {
                     Op::EvictAll
                 }
